@@ -121,6 +121,20 @@ def run(prog, ctx):
             w = [did for nm, did, _k in im["items"] if nm == "write"]
             if w and w[0] in prog.fns:
                 hashers[im["self_ty"]] = prog.fns[w[0]]
+    # a `write` that only hands its argument to one private worker of the same type: analyse the worker
+    writers = dict(hashers)      # the `write` functions themselves (length accounting looks at both)
+    for ty_, f_ in list(hashers.items()):
+        adt_ = prog.adts.get(ty_) or {"variants": [{"fields": []}]}
+        carry_ = set(n for n, t in adt_["variants"][0]["fields"] if t == "usize" or t.startswith("[u8; "))
+        for _hop in range(2):
+            stores_ = any(True for _ in sym.field_stores(prog, adt=ty_, fns=[f_]) if _[2] != "agg" and _[7] in carry_) or bool(Sym(prog, f_).loops())
+            same_ = [prog.fns[st_["callee"]] for _b, st_ in f_.calls() if st_.get("callee") in prog.fns and prog.fns[st_["callee"]].owner == ty_
+                     and prog.fns[st_["callee"]].argc == 2 and len(st_["args"]) == 2]
+            if not stores_ and len(same_) == 1 and same_[0].local_ty(2) == f_.local_ty(2):
+                f_ = same_[0]
+                hashers[ty_] = f_
+            else:
+                break
     res.rule("C16.hashers", len(hashers), 2, "impl Hasher in the crate (MurmurHash3X64128, XxHash64)")
     res.entry_points = [f.id for f in hashers.values()]
     res.functions_analysed = 0
@@ -183,7 +197,7 @@ def run(prog, ctx):
     # change over write() = its direct stores + (calls of helpers that add a constant to it) x (how often each is executed: once
     # under its path condition, or the trip count of the enclosing `for` over a Range / chunks_exact).
     n_t = 0
-    for ty, f in sorted(hashers.items()):
+    for ty, f in sorted(writers.items()):
         adt = prog.adts.get(ty)
         if not adt:
             continue
@@ -228,7 +242,7 @@ def run(prog, ctx):
                         if e[0] == "bin" and e[1] in ("Add", "AddWithOverflow") and set(formula.top_leaves(e)) == {fk, ck}:
                             adds_pending = True
         s = Sym(prog, f)
-        e_cnt = s.field_exit_value(cnt)
+        e_cnt = s.field_exit_value(cnt) if hashers[ty].id == f.id else Sym(prog, hashers[ty]).field_exit_value(cnt)
         e_len = s.field_exit_value(lenf)
         direct = any(True for _ in sym.field_stores(prog, adt=ty, field=lenf, fns=[f]))
         if e_cnt is None or (direct and e_len is None):
